@@ -360,9 +360,9 @@ func runC01(r *fw.Run) {
 		tr     string
 		listen bool
 	}
-	cfgs := []cfg{{"unix", false}, {"unix", true}}
+	cfgs := []cfg{{"unix", false}, {"unix", true}, {"tcp", true}}
 	if r.Thorough {
-		cfgs = append(cfgs, cfg{"tcp", false}, cfg{"abstract", true}, cfg{"tcp", true})
+		cfgs = append(cfgs, cfg{"tcp", false}, cfg{"abstract", true})
 	}
 	rounds := r.Pick(2000, 24000)
 	maxConns := r.Pick(8, 32)
@@ -383,7 +383,14 @@ func runC01(r *fw.Run) {
 			for j := 0; j < nconn; j++ {
 				tagN++
 				// handler failures end the connection with unread pipelined calls: unix only (DESIGN C01)
-				cs := genConnScript(rng, jg, fmt.Sprintf("c%d", tagN), 6, cf.tr != "tcp")
+				maxCalls := 6
+				if k%97 == 13 && j == 0 {
+					maxCalls = 700 // now and then a long-lived connection with hundreds of calls
+				}
+				cs := genConnScript(rng, jg, fmt.Sprintf("c%d", tagN), maxCalls, cf.tr != "tcp")
+				if maxCalls > 6 {
+					r.Max("max_calls_on_one_connection", int64(len(cs.Calls)))
+				}
 				cc.Conns = append(cc.Conns, cs)
 			}
 			if r.ViolationCount() > 12 || g.tainted {
